@@ -204,6 +204,15 @@ class SynthWorld:
             return I.ProgressivelyTerminalDecider(random, self.grammar)
         raise ValueError(kind)
 
+    def fresh_rep(self):
+        """another representation object (with its own decider) of the same configuration; the world's own one stays in place"""
+        saved = (self.rep, self.decider, self.construct_error, self.gene_read_cap)
+        try:
+            r = self.construct(max_depth=self.max_depth)
+            return self.rep if r.ok else None
+        finally:
+            self.rep, self.decider, self.construct_error, self.gene_read_cap = saved
+
     def construct(self, max_depth=None):
         """build decider + representation; returns OpResult"""
         res = OpResult("construct")
